@@ -3,7 +3,7 @@
 # (patch.diff + demo_test.go): existing suite passes with it, the demonstration fails with it and
 # passes without it; then runs the quick check of the property against it.
 # Output: one line  SEED <ID>/<variant> suite=<ok|FAIL> demo_clean=<pass|FAIL> demo_patched=<fail|PASS> check=<CAUGHT|MISSED|INCONCLUSIVE> :: class
-id=$1; x=$2; out=${3:-/tmp/seedout-$id/$x}
+id=$1; x=$2; out=${3:-/tmp/seedout${SEEDROUND:-}-$id/$x}
 export GOFLAGS=-mod=mod GOPROXY=off GOSUMDB=off GOTOOLCHAIN=local
 d=$(mktemp -d /tmp/vseed-XXXXXX)
 rsync -a --exclude .git /repo/ "$d/"
